@@ -232,7 +232,8 @@ def h_redundant(run, cfg):
         for k, op in enumerate(cfg['ops']):
             try:
                 O.apply_op(memo, w, k, op)
-                root.value
+                if not (cfg.get('quiet') and extra == 0):
+                    root.value                 # quiet: the first world applies the operations back to back, nothing is read in between
                 for _ in range(extra):
                     root.update(root.now)
             except Exception as e:
@@ -303,6 +304,13 @@ def plan(tier):
         for cfg in _cfgs('S3', seq, 0, 'thorough')[:1]:
             cfg.update(extra=1)
             tasks.append(dict(harness='redundant', cfg=cfg, opts=opts))
+    # operations applied back to back (no read in between) vs the same history with an update after each: an operation's own inputs must be fresh
+    for seq in ((['transact', 'a'], ['rebal_base', 'a', 0.75, 1000000.0]), (['alloc', 'a'], ['rebal_base', 'a', 0.25, 2000000.0]),
+                (['transact', 'b'], ['rebal_base', 'b', -0.25, 1000000.0]), (['adjust'], ['rebal_base', 'a', 0.5, 1000000.0]), (['transact', 'a'], ['close', 'a']),
+                (['transact', 'b'], ['flatten'])):
+        fee = ['prop', 0.001953125] if seq[0][0] == 'alloc' else ['uf']
+        cfg = dict(shape='S1', int=0, fee=['none', None], spread=0, ops=[list(o) for o in seq], mult=1, extra=1, quiet=1)
+        tasks.append(dict(harness='redundant', cfg=cfg, opts=opts))
     # fixed-income tree with a zero-price episode, no commission, no bid/offer: zero-cost trades must still refresh notionals and weights
     fseqs = [(['next'], ['transact', 'a']), (['next'], ['transact', 'b']), (['transact', 'a'], ['transact', 'c']), (['next'], ['adjust'])]
     for seq in (fseqs[:1] if quick else fseqs):
